@@ -143,24 +143,6 @@ Proof.
   unfold sort_str. induction l as [|x r IH]; cbn; [auto|]. intros H. destruct (ins_str_In _ _ _ H) as [->|H']; auto.
 Qed.
 
-(* a value that to_dict would test as None does not conform to a never-None type *)
-Lemma never_none_enc E : forall m n cur base t v j,
-  never_none m t = true -> is_none_val v = true -> enc_ok n E cur base t v j = false.
-Proof.
-  induction m as [|m IHm]; intros n cur base t v j Hn Hv; [discriminate|].
-  destruct n as [|n]; [reflexivity|].
-  assert (Hcases: v = VNone \/ v = VRaw JNull).
-  { destruct v; try discriminate; auto. destruct j0; try discriminate; auto. }
-  destruct t; cbn [never_none] in Hn; try discriminate; cbn [enc_ok].
-  all: try (destruct Hcases as [-> | ->]; reflexivity).
-  all: try (destruct Hcases as [-> | ->]; destruct j; reflexivity).
-  all: try (destruct (find_enum (enums E) e); [|reflexivity]; destruct Hcases as [-> | ->]; reflexivity).
-  all: try (destruct (find_cls _ c); [|reflexivity]; destruct Hcases as [-> | ->]; destruct j; reflexivity).
-  - (* TLit *) destruct Hcases as [-> | ->]; [reflexivity|]. apply negb_true_iff in Hn. rewrite Hn. reflexivity.
-  - (* TUnion *) apply not_true_is_false. intros He. apply existsb_exists in He. destruct He as (t' & Hin & He).
-    rewrite (IHm n cur base t' v j (forallb_In _ _ _ Hn Hin) Hv) in He. discriminate.
-Qed.
-
 Lemma has_key_cons {A} (k0: string) (v: A) l k : has_key ((k0, v) :: l) k = String.eqb k0 k || has_key l k.
 Proof. unfold has_key. cbn. destruct (String.eqb k0 k); reflexivity. Qed.
 
@@ -279,20 +261,19 @@ Section Sound.
   (* a dataclass object schema accepts the members emitted for an instance *)
   Lemma data_sound n (IH: sound_at n) mf m' k (Hk: 2 * n + 1 <= k) d fs ms ps :
     obj_match (fun f fv x => enc_ok n E (nt_mode (c_ntd d) (f_ntover f)) (c_ntd d) (f_ty f) fv x)
-              (fun f fv => c_omit d && nullable (f_ty f) && is_none_val fv) (c_fields d) fs ms = true ->
+              (fun f fv => c_omit d && fnullable f && is_none_val fv) (c_fields d) fs ms = true ->
     omap (fun f => match schema_f E dl ar (nt_mode (c_ntd d) (f_ntover f)) mf (f_ty f) with
                    | Some s => Some (f_key f, s) | None => None end) (c_fields d) = Some ps ->
-    forallb (fun f => f_init f && ty_ok m' E (nt_mode (c_ntd d) (f_ntover f)) (c_ntd d) (f_ty f)
-                      && (negb (c_omit d) || f_has_default f || never_none m' (f_ty f))) (c_fields d) = true ->
+    forallb (fun f => f_init f && ty_ok m' E (nt_mode (c_ntd d) (f_ntover f)) (c_ntd d) (f_ty f)) (c_fields d) = true ->
     no_dup_str (map f_key (c_fields d)) = true ->
-    jvalid pm defs (Sn k) (S (obj_kws (Some (c_name d)) ps (map f_key (filter (fun f => negb (f_has_default f)) (c_fields d)))))
+    jvalid pm defs (Sn k) (S (obj_kws (Some (c_name d)) ps (map f_key (filter (frequired (c_omit d)) (c_fields d)))))
            (JObj ms) = true.
   Proof.
     intros Hm Ho Hok Hnd.
     destruct (obj_match_facts _ _ _ _ _ Hm) as [M F].
     pose proof (ps_assoc f_key (fun f => schema_f E dl ar (nt_mode (c_ntd d) (f_ntover f)) mf (f_ty f)) _ _ Ho Hnd) as PA.
     rewrite jvalid_S. cbn [kws_of].
-    set (KW := obj_kws (Some (c_name d)) ps (map f_key (filter (fun f => negb (f_has_default f)) (c_fields d)))).
+    set (KW := obj_kws (Some (c_name d)) ps (map f_key (filter (frequired (c_omit d)) (c_fields d)))).
     assert (HKW: get_props KW = ps) by apply get_props_obj.
     unfold KW at 2. unfold obj_kws.
     rewrite !forallb_app, !andb_true_iff. refine (conj _ (conj _ (conj _ (conj _ _)))).
@@ -301,18 +282,17 @@ Section Sound.
     - destruct ps eqn:Eps; [reflexivity|]. rewrite <- Eps in *. cbn [forallb kw_ok]. rewrite andb_true_r.
       apply forallb_forall. intros [key x] Hin. destruct (M key x Hin) as (f & fv & Hf & -> & Hc).
       destruct (PA f Hf) as (s' & Hs' & ->).
-      pose proof (forallb_In _ _ _ Hok Hf) as H0. apply andb_true_iff in H0. destruct H0 as [H0 _].
-      apply andb_true_iff in H0. destruct H0 as [_ H0].
+      pose proof (forallb_In _ _ _ Hok Hf) as H0. apply andb_true_iff in H0. destruct H0 as [_ H0].
       eapply (IH _ _ _ _ _ Hc mf m' s'); eauto.
-    - assert (Hr: forallb (has_key ms) (map f_key (filter (fun f => negb (f_has_default f)) (c_fields d))) = true).
+    - assert (Hr: forallb (has_key ms) (map f_key (filter (frequired (c_omit d)) (c_fields d))) = true).
       { apply forallb_forall. intros key Hin. apply in_map_iff in Hin. destruct Hin as (f & <- & Hf).
-        apply filter_In in Hf. destruct Hf as [Hf Hd]. apply negb_true_iff in Hd.
+        apply filter_In in Hf. destruct Hf as [Hf Hd].
         destruct (F f Hf) as [(fv & Hdrop & Hc)|Hh]; [|exact Hh]. exfalso.
-        apply andb_true_iff in Hdrop. destruct Hdrop as [Hdrop Hnv]. apply andb_true_iff in Hdrop. destruct Hdrop as [Hom _].
-        pose proof (forallb_In _ _ _ Hok Hf) as H0. apply andb_true_iff in H0. destruct H0 as [_ H0].
-        rewrite Hom, Hd in H0. cbn in H0.
-        rewrite (never_none_enc E _ _ _ _ _ _ JNull H0 Hnv) in Hc. discriminate. }
-      destruct (map f_key (filter (fun f => negb (f_has_default f)) (c_fields d))); [reflexivity|].
+        (* a dropped field is omit && nullable, so it is not in `required` *)
+        apply andb_true_iff in Hdrop. destruct Hdrop as [Hdrop _].
+        unfold frequired in Hd. apply andb_true_iff in Hd. destruct Hd as [_ Hd].
+        rewrite Hdrop in Hd. discriminate. }
+      destruct (map f_key (filter (frequired (c_omit d)) (c_fields d))); [reflexivity|].
       cbn [forallb kw_ok]. rewrite andb_true_r. exact Hr.
     - cbn [forallb kw_ok orb]. rewrite andb_true_r, HKW.
       apply forallb_forall. intros [key x] Hin. cbn [fst]. destruct (M key x Hin) as (f & fv & Hf & -> & _).
@@ -433,7 +413,7 @@ Section Sound.
       { unfold env_ok in Eok. apply andb_true_iff in Eok. destruct Eok as [_ Hf]. exact (forallb_In _ _ _ Hf Hin). }
       assert (Hinit: filter f_init (c_fields d) = c_fields d).
       { apply filter_all. apply forallb_forall. intros f Hf. pose proof (forallb_In _ _ _ Hok Hf) as H0.
-        apply andb_true_iff in H0. destruct H0 as [H0 _]. apply andb_true_iff in H0. tauto. }
+        apply andb_true_iff in H0. tauto. }
       destruct ar eqn:Ear.
       + inv Hs. cbn [kws_of forallb kw_ok]. rewrite andb_true_r.
         destruct (Hdefs eq_refl d Hin) as (md & s' & Hcs & Has). rewrite Has.
